@@ -848,7 +848,10 @@ def Array(
             try:
                 stream = _as_stream(buffer)
                 if _length is None:
-                    return cls._decode_all(stream)
+                    _val = cls._decode_all(stream)
+                    if cls._bit_elements:
+                        return list(chain.from_iterable(_val))
+                    return _val
 
                 if isinstance(_length, DataType):
                     _len = _length.decode(stream)
